@@ -533,6 +533,128 @@ func ruleR44(c *Ctx) *RuleResult {
 			r.bad("nilconst:"+p.FuncKey(fn), "no path dereferences the nil constant", p.FuncPos(fn), strings.Join(dedup(hits), "\n"))
 		}
 	}
+	// (d) the root of an empty tree is nil: a callee that reads through its node parameter on every path, untested, is handed
+	// `X.Root` only on paths that know X non-empty (size != 0) or the root non-nil
+	{
+		needs := map[string]map[int]bool{} // callee key → parameter positions dereferenced on every entry path without a test
+		for _, fn := range p.Funcs {
+			if fn.Parent() != nil || fn.Blocks == nil || fn.Pkg == nil || !p.IsLib(fn) {
+				continue
+			}
+			gc := c.GC(fn)
+			if gc.Undecided != "" {
+				continue
+			}
+			for k, prm := range fn.Params {
+				if _, isPtr := prm.Type().Underlying().(*types.Pointer); !isPtr {
+					continue
+				}
+				pk := "p:" + itoa(k)
+				all, some := true, false
+				for _, g := range gc.GCs {
+					if g.From != 0 {
+						continue
+					}
+					some = true
+					tested, deref := false, false
+					see := func(t *Term) bool {
+						if (t.Op == "fa" || t.Op == "ia") && len(t.Args) >= 1 && t.Args[0].String() == pk {
+							deref = true
+						}
+						return false
+					}
+					for _, a := range g.Guards {
+						if (a.Op == "==" || a.Op == "!=") && len(a.Args) == 2 && (a.Args[0].String() == pk || a.Args[1].String() == pk) {
+							tested = true
+						}
+						a.any(see)
+					}
+					for _, ef := range g.Effects {
+						ef.any(see)
+					}
+					g.Exit.any(see)
+					if tested || !deref {
+						all = false
+					}
+				}
+				if all && some {
+					if needs[p.FuncKey(fn)] == nil {
+						needs[p.FuncKey(fn)] = map[int]bool{}
+					}
+					needs[p.FuncKey(fn)][k] = true
+				}
+			}
+		}
+		nsites := 0
+		var hits []string
+		for _, fn := range p.Funcs {
+			if fn.Parent() != nil || fn.Blocks == nil || fn.Pkg == nil || !p.IsLib(fn) {
+				continue
+			}
+			gc := c.GC(fn)
+			if gc.Undecided != "" {
+				continue
+			}
+			for _, g := range gc.GCs {
+				see := func(t *Term) bool {
+					if t.Op != "do" && t.Op != "call" {
+						return false
+					}
+					nd, ok := needs[t.Leaf]
+					if !ok {
+						return false
+					}
+					off := 0
+					if t.Op == "call" {
+						off = 1 // Args[0] is the epoch marker
+					}
+					for k := range nd {
+						if k+off >= len(t.Args) {
+							continue
+						}
+						a := t.Args[k+off]
+						if !(a.Op == "load" && len(a.Args) == 1 && a.Args[0].Op == "fa" && a.Args[0].Leaf == "Root" && len(a.Args[0].Args) == 1) {
+							continue
+						}
+						nsites++
+						owner := noEpoch(a.Args[0].Args[0])
+						known := false
+						for _, gd := range g.Guards {
+							s := noEpoch(gd)
+							if gd.Op == "!=" && (s == "(!= #:0 (load (fa:size "+owner+")))" || s == "(!= #:nil "+noEpoch(a)+")") {
+								known = true
+							}
+							if gd.Op == "<" && s == "(< #:0 (load (fa:size "+owner+")))" {
+								known = true
+							}
+						}
+						for _, ef := range g.Effects {
+							// the path itself has just planted a root
+							if isStore(ef) && ef.Args[0].Op == "fa" && ef.Args[0].Leaf == "Root" {
+								known = true
+							}
+						}
+						if !known {
+							hits = append(hits, fmt.Sprintf("%s hands %s to %s, which reads through that parameter untested on every path, without knowing the tree non-empty: %s", p.FuncKey(fn), trunc(noEpoch(a), 60), t.Leaf, trunc(guardsString(g), 160)))
+						}
+					}
+					return false
+				}
+				for _, ef := range g.Effects {
+					ef.any(see)
+				}
+				g.Exit.any(see)
+				for _, gd := range g.Guards {
+					gd.any(see)
+				}
+			}
+		}
+		if len(hits) > 0 {
+			r.bad("nilroot", "the root of an empty tree is handed only to callees that test it", "-", strings.Join(dedup(hits), "\n"))
+		} else {
+			r.ok("nilroot", "a callee that reads through its node parameter untested on every path is handed X.Root only on paths that know X non-empty", "-", fmt.Sprintf("%d call sites handing a Root to such a callee, each under a non-emptiness test", nsites))
+		}
+	}
 	r.ok("nilconst", "no path of any library function reads or writes a field or slot through the nil constant (a pointer variable that is never assigned on that path)", "-", fmt.Sprintf("%d functions", nfn))
 	var sites []site
 	for s := range seen {
